@@ -404,6 +404,10 @@ class VectorDot(Expr):  # type: ignore[misc]
     frame is reversed.
     """
 
+    # dot product is a scalar, see `VectorNorm` and `VectorMixedProduct`
+    is_real = True
+    is_commutative = True
+
     @property
     def lhs(self) -> VectorExpr:
         return self.args[0]  # type: ignore[no-any-return]
